@@ -112,7 +112,7 @@ func init() {
 	core.Register(&core.Check{
 		Spec: core.Spec{
 			Prop:        "C09",
-			Rule:        "Same scenario engine. After every operation the snapshot must be a well-formed DAG: declared-parent graph acyclic (Kahn); every live non-genesis vertex has an edge from each distinct declared parent that is live and from nothing else; a declared parent that is not live is checkpointed; graph id = storage key = vertex hash; hash, sealing, issuer and receiver signatures recompute (harness's own rendering and the node's own verify). Every vertex returned by CreateLeaf references tips of the previous snapshot that survived the call and has weight max(parents)+1; a failed add leaves no new vertex or index entry. After every scenario a fresh node syncs from node 0 and is held to the same structural oracle. One batch runs a two-node 1060-vertex ledger through a truncation and 60 hostile operations afterwards (weights above 1000, checkpointed parents); another cancels a truncation in the middle of its persisting walk and lets further truncations follow. Non-trivial = every snapshot after a mutating operation; distinct by (operation, outcome, tip/live/parked buckets). A dedicated workload lets 2-5 copies of one gossiped vertex race each other while its child is delivered as soon as the vertex is visible and one transaction is proposed twice at once: a refused copy must take nothing with it. Altered copies (amount, receiver, data, parents) of a vertex the node verified, admitted and then dropped are offered under the genuine hash and signatures: they must be refused.",
+			Rule:        "Same scenario engine. After every operation the snapshot must be a well-formed DAG: declared-parent graph acyclic (Kahn); every live non-genesis vertex has an edge from each distinct declared parent that is live and from nothing else; a declared parent that is not live is checkpointed; graph id = storage key = vertex hash; hash, sealing, issuer and receiver signatures recompute (harness's own rendering and the node's own verify). Every vertex returned by CreateLeaf references tips of the previous snapshot that survived the call and has weight max(parents)+1; a failed add leaves no new vertex or index entry. After every scenario a fresh node syncs from node 0 and is held to the same structural oracle. One batch runs a two-node 1060-vertex ledger through a truncation and 60 hostile operations afterwards (weights above 1000, checkpointed parents); another cancels a truncation in the middle of its persisting walk and lets further truncations follow. Non-trivial = every snapshot after a mutating operation; distinct by (operation, outcome, tip/live/parked buckets). A dedicated workload lets 2-5 copies of one gossiped vertex race each other while its child is delivered as soon as the vertex is visible and one transaction is proposed twice at once: a refused copy must take nothing with it. Altered copies (amount, receiver, data, parents) of a vertex the node verified, admitted and then dropped are offered under the genuine hash and signatures: they must be refused. Parents created ahead of and behind the node's clock (1 ms to 30 days).",
 			Assumptions: []string{ledgerAssume},
 			MinEvals:    300, MinNontriv: 10,
 		},
@@ -132,7 +132,7 @@ func init() {
 	core.Register(&core.Check{
 		Spec: core.Spec{
 			Prop:        "C10",
-			Rule:        "Same scenario engine with rule-breaking offers on every entry point: issuer = proposing node's wallet (local), issuer = sealer for gossiped vertices (also sealed by a wallet that is itself a node), issuer = genesis wallet, transactions with neither data nor spice, each also delivered before its parent and replayed from the orphan buffer. Each forbidden offer must return an error and leave neither vertex, parked entry nor index entry; every snapshot is scanned for self-sealed / genesis-issued / empty vertices; sync streams carrying a forbidden vertex on a tip or as a second root (zero parent hashes, zero left parent) must not yield a loaded node holding it. Non-trivial = forbidden offers; distinct by (rule, entry point, node role). 'No data' is offered in both spellings (absent slice, empty slice). One batch drives the gossip service of a whole node: an orphan, then a forbidden vertex on known parents (self sealed, empty in both spellings, issued by the genesis wallet), then the parent and the replay of the orphan buffer; the ledger must hold the orphan and nothing forbidden. Fixed scenarios: a sealer the node trusts offers forbidden vertices (the rules do not depend on who seals); vertices of weight 2^64-1, 2^64-2, 2^63 become tips of a joined node and its own wallet, the genesis wallet and an empty transaction are then proposed (the next weight wraps around). After truncation: two nodes with 1040 common vertices both truncate (the genesis vertex leaves the live graph); the genesis wallet then spends by gossip at the genesis node and by proposal at the joined node, next to a self sealed and an empty offer.",
+			Rule:        "Same scenario engine with rule-breaking offers on every entry point: issuer = proposing node's wallet (local), issuer = sealer for gossiped vertices (also sealed by a wallet that is itself a node), issuer = genesis wallet, transactions with neither data nor spice, each also delivered before its parent and replayed from the orphan buffer. Each forbidden offer must return an error and leave neither vertex, parked entry nor index entry; every snapshot is scanned for self-sealed / genesis-issued / empty vertices; sync streams carrying a forbidden vertex on a tip or as a second root (zero parent hashes, zero left parent) must not yield a loaded node holding it. Non-trivial = forbidden offers; distinct by (rule, entry point, node role). 'No data' is offered in both spellings (absent slice, empty slice). One batch drives the gossip service of a whole node: an orphan, then a forbidden vertex on known parents (self sealed, empty in both spellings, issued by the genesis wallet), then the parent and the replay of the orphan buffer; the ledger must hold the orphan and nothing forbidden. Fixed scenarios: a sealer the node trusts offers forbidden vertices (the rules do not depend on who seals); vertices of weight 2^64-1, 2^64-2, 2^63 become tips of a joined node and its own wallet, the genesis wallet and an empty transaction are then proposed (the next weight wraps around). After truncation: two nodes with 1040 common vertices both truncate (the genesis vertex leaves the live graph); the genesis wallet then spends by gossip at the genesis node and by proposal at the joined node, next to a self sealed and an empty offer. A refused second LoadDag on a joined node, then genesis-wallet spends proposed and gossiped there.",
 			Assumptions: []string{ledgerAssume},
 			MinEvals:    300, MinNontriv: 8,
 		},
